@@ -206,8 +206,9 @@ def gen_case_abort(seed, i):
                            'yes() -> multiply(#a, 2)'])
             scan = "*" if line == 0 else "1*"
         else:
-            mp = r.choice(['#b == "p" push("s", #a)', "yes()", "@c = count()", 'print("l $.csvpath.line_number")'])
-            scan = r.choice(["1*", "1*", "*"])
+            mp = r.choice(['#b == "p" push("s", #a)', "yes()", "@c = count()", 'print("l $.csvpath.line_number")', 'yes() line_number() == 1 -> stop()'])
+            # some members are done (bounded scan, stop()) before the abort happens
+            scan = r.choice(["1*", "1*", "*", "0-1", "1", "0"])   # bounds inside every generated file
         members.append({"match": mp, "ident": r.choice([None, f"m{j}"]), "scan": scan})
     method = r.choice(["collect_paths", "fast_forward_paths", "next_paths", "collect_by_line", "next_by_line", "fast_forward_by_line"])
     follow = r.choice(["collect_paths", "collect_by_line", "fast_forward_paths"])
@@ -292,12 +293,17 @@ def case_abort(case):
                 fid = "abort-on-last-line-completed" if line == len(case["recs"]) - 1 else None
                 res["oracle"].append({"what": "manifest of the aborting member does not say completed false", "got": man.get("completed"),
                                       "finding": fid})
+        elif not serial:
+            # breadth-first: every other member was running or already done when the abort came; its record must be
+            # there, readable and in step with its in-memory result
+            check_member_dir(res, mdir, {**mo, "lines": None}, False, what="other member of an aborted breadth-first run: ")
         elif serial:
             check_member_dir(res, mdir, mo, method in ("collect_paths", "next_paths"), what="earlier member: ")
             try:
                 with open(os.path.join(mdir, "manifest.json")) as f:
                     man = json.load(f)
-                if man.get("completed") is not True:
+                # (a member that ended itself with stop() did not read its scan to the end: no claim about its flag)
+                if man.get("completed") is not True and "stop()" not in case["members"][j]["match"]:
                     res["oracle"].append({"what": "a member that finished before the abort is not marked completed", "member": idents[j]})
             except Exception as e:  # noqa: BLE001
                 res["oracle"].append({"what": f"earlier member manifest unreadable: {e}"})
